@@ -38,6 +38,20 @@ CLAIMED = {
         note="Network primitives are replaced by stubs that raise. Verdict exactness is C01's claim; here only the class. "
              "Quick: singles over a 16-shape pool + downs; thorough: pairs inside families over the 33-shape pool.",
         design="5 C03"),
+    "C04": dict(
+        technique="TLA+ EntryPoints spec (BestCandidates, error identity); TLC model of the entry-point protocol over all short "
+                  "error sequences (MC_C04); recorded is_valid / iter_errors / validate / jsonschema.validate / best_match / "
+                  "check_schema observations judged relation by relation by TLC (Trace_C04)",
+        text="The relations between the entry points are predicates of the specification (emptiness equivalences, validate "
+             "raises the first yielded error, module validate raises a best candidate equal to the library's own "
+             "best_match, SchemaError carries the first metaschema error and precedes any look at the instance, repeated "
+             "calls are identical). TLC model-checks the protocol over all error sequences with context trees (including "
+             "that the documented best_match algorithm always lands in the candidate set), and evaluates every relation "
+             "on records taken from the real entry points for random valid and invalid schemas, explicit and "
+             "$schema-selected classes, with and without a format checker; invalid-schema records pass a spying instance.",
+        note="best_match's choice among candidates is a documented heuristic and is never predicted. Error identity = "
+             "(keyword, message hash, path, schema path, context recursively). History effects across instances are C07's.",
+        design="5 C04"),
     "C05": dict(
         technique="TLA+ error model of Semantics.tla; TLC checks the union law (invariant) and the incremental law (action "
                   "property) on every SchemaBuilder state and exports expected error bags replayed into iter_errors; "
